@@ -76,7 +76,10 @@ def run(ctx, chk):
         chk.floor('C15.N1', 'paths of Drop for Context', n, 4)
 
     # ------------------------------------------------------------ N2/N3 manager
-    eng = common.mk_engine(fb, no_inline=lambda x: True)
+    def keep_opaque(x):
+        by_value_ctx = any(x.crate.tystr(x.locals[i]['ty']).endswith('thread_manager::Context') for i in range(1, x.argc + 1))
+        return by_value_ctx or x.name in ('broadcast_abort', 'new_channel_web') or x.crate.name != common.DAEMON
+    eng = common.mk_engine(fb, no_inline=keep_opaque)
     paths = [p for p in eng.run(tmb) if p.kind != 'unreachable']
     chk.analysed['paths'] += len(paths)
     spawn_seen = {}
@@ -112,9 +115,16 @@ def run(ctx, chk):
         cid = cid[2] if cid[0] == 'agg' else None
         mbox = f.get('mbox')
         mb_id = None
+        # the mailbox value is the result of a lookup keyed by a ChannelId (get_mailbox, or the
+        # HashMap::remove it wraps, possibly through a helper): find that key
         for x in psi.walk(mbox) if mbox else []:
-            if x[0] == 't' and x[1] == 'call' and x[2][0].endswith('get_mailbox'):
-                mb_id = variant_of(eng, p.state, x[2][3]) if len(x[2]) > 3 else None
+            if x[0] == 't' and x[1] == 'call':
+                for a in x[2][2:]:
+                    if a[0] == 'ref':
+                        vn = variant_of(eng, p.state, a)
+                        pv = eng.load(p.state, a[1])
+                        if vn in ids.values() and pv[0] == 'agg' and pv[1].endswith('ChannelId'):
+                            mb_id = vn
         chk.ob('C15.N2', 'spawn:mailbox-matches-id:%s' % cid, cid is not None and mb_id == cid, where,
                'Context{channel_id: %s} holds the mailbox of %s' % (cid, mb_id))
         # the closure hands the Context by value to its worker
@@ -221,10 +231,16 @@ def run(ctx, chk):
                            'the chain is driven by %s, which stops early' % nm)
             if 'keys' not in names and 'iter' not in names:
                 chk.ob('C15.N4', 'broadcast:iterates-all-channels', False, p.where[2], 'broadcast does not iterate the dispatch box: %s' % names)
+        if flt is None and mp is None and b.back_edges():
+            explicit_loop_broadcast(fb, chk, b, ids)
+            flt = mp = 'explicit-loop'
+            consumed = True
         chk.ob('C15.N4', 'broadcast:iterator-consumed', consumed, b.where(0),
                'the lazy filter/map chain %s' % ('is consumed' if consumed else 'is never consumed: no ThreadAbort is sent'))
         # filter closure: true iff id != MainThread
-        if flt is not None and flt[0] == 'agg' and flt[1].startswith('closure:'):
+        if flt == 'explicit-loop':
+            pass
+        elif flt is not None and flt[0] == 'agg' and flt[1].startswith('closure:'):
             fbod = fb.body(flt[1][len('closure:'):])
             keep = {}
             if fbod is not None:
@@ -249,7 +265,9 @@ def run(ctx, chk):
         else:
             chk.ob('C15.N4', 'broadcast:filter-excludes-only-main', flt is None, b.where(0),
                    'no filter closure: %s' % ('every id is addressed' if flt is None else fmt(flt)[:60]), nontrivial=False)
-        if mp is not None and mp[0] == 'agg' and mp[1].startswith('closure:'):
+        if mp == 'explicit-loop':
+            pass
+        elif mp is not None and mp[0] == 'agg' and mp[1].startswith('closure:'):
             mbod = fb.body(mp[1][len('closure:'):])
             ok = False
             if mbod is not None:
@@ -286,6 +304,49 @@ def run(ctx, chk):
             chk.ob('C15.N7', 'main:returns-after-manager', p.kind == 'return' and not after, p.where[2],
                    'after thread_manager::run returns, main %s; later calls: %s' % (p.kind, after))
         chk.floor('C15.N7', 'main paths through the manager', n, 1)
+
+
+def explicit_loop_broadcast(fb, chk, b, ids):
+    """broadcast written as a `for` loop over the dispatch box: every iteration either skips MainThread or
+    sends ThreadAbort to the iterated id, and only iterator exhaustion leaves the loop"""
+    main_discr = [k for k, v in ids.items() if v == 'MainThread']
+    main_discr = main_discr[0] if main_discr else None
+    eng = common.mk_engine(fb)
+    n_iter = 0
+    for p in eng.run(b):
+        if p.kind == 'unreachable':
+            continue
+        calls = [ef for ef in p.effects if ef['kind'] == 'call' and not ef['tracing']]
+        nexts = [ef for ef in calls if ef['callee'].endswith('::next')]
+        if not nexts:
+            continue
+        got_item = any(t[0] == 't' and t[1] == 'discr' and 'next#' in fmt(t) and fmt(t).count('(') <= 3 and op == '==' and v == 1
+                       for t, op, v, _ in p.conds)
+        if not got_item:
+            chk.ob('C15.N4', 'broadcast:loop-ends-only-on-exhaustion', p.kind == 'return', p.where[2],
+                   'iterator exhausted -> %s' % p.kind)
+            continue
+        n_iter += 1
+        chk.ob('C15.N4', 'broadcast:loop-continues-after-each-id', p.kind == 'backedge', p.where[2],
+               'an iteration with an id in hand ends as %s (must go on to the next id: a `break`/`return`/`?` here skips later workers)' % p.kind)
+        is_main = None
+        for t, op, v, _ in p.conds:
+            n = common.cmp_const_right(t)
+            if n and n[0] in ('eq', 'ne') and n[1][0] == 't' and n[1][1] == 'discr' and 'next#' in fmt(n[1]) and n[2] == main_discr:
+                truth = (op == '!=' and set(v) == {0}) or (op == '==' and v == 1)
+                is_main = truth if n[0] == 'eq' else not truth
+        sends = [ef for ef in calls if ef['callee'].endswith('Sender::<T>::send')]
+        lookup_failed = any(t[0] == 't' and t[1] == 'discr' and 'get#' in fmt(t) and op == '==' and v == 0 for t, op, v, _ in p.conds)
+        if is_main is True:
+            chk.ob('C15.N4', 'broadcast:filter-excludes-only-main', not sends, p.where[2], 'MainThread is skipped (sends: %d)' % len(sends))
+        elif is_main is False:
+            ok = lookup_failed or (len(sends) == 1 and sends[0]['args'][1][0] == 'agg' and sends[0]['args'][1][2] == 'ThreadAbort')
+            chk.ob('C15.N4', 'broadcast:sends-thread-abort', ok, p.where[2],
+                   'a non-main id gets %s' % ([fmt(s_['args'][1])[:30] for s_ in sends] or 'nothing'))
+        else:
+            chk.ob('C15.N4', 'broadcast:filter-excludes-only-main', False, p.where[2],
+                   'an iteration does not decide on `id == MainThread`: %s' % [psi.fmt_cond(c)[:80] for c in p.conds][:3])
+    chk.floor('C15.N4', 'broadcast loop iterations analysed', n_iter, 2)
 
 
 def common_variant_names(fb, suffix):
